@@ -5,6 +5,9 @@
 From Coq Require Import ZArith Bool.
 From Flocq Require Import Core IEEE754.Binary IEEE754.Bits.
 From V Require Import IeeeSoft IeeeSoftProof IeeeFlocqProof.
+From Coq Require Import List NArith.
+From V Require Fm94 IeeeCol IeeeColProof.
+Import ListNotations.
 Open Scope Z_scope.
 
 (* ------------------------------------------------------------------------------------------------------------------
@@ -179,3 +182,15 @@ Example C19_constants_are_the_C_macros :
   sign_bit fmt32 = 0x80000000 /\ expon_bits fmt32 = 0x7f800000 /\ fract_bits fmt32 = 0x007fffff /\ bias fmt32 = 127 /\
   sign_bit fmt64 = 0x8000000000000000 /\ expon_bits fmt64 = 0x7ff0000000000000 /\ fract_bits fmt64 = 0x000fffffffffffff /\ bias fmt64 = 1023.
 Proof. repeat split; reflexivity. Qed.
+
+(* ------------------------------------------------------------------------------------------------------------------ compressed columns *)
+(* A compressed message carries a 2 09 YYY column in the library's own convention (IeeeCol.v).  Every column of patterns - zeros
+   of either sign are different patterns - is read back pattern for pattern, whatever follows it in Section 4. *)
+Theorem C19_compressed_column_roundtrip : forall (w:nat) (vals:list N) (tl:Fm94.bits),
+  (8 <= w)%nat -> (w < 512)%nat -> vals <> nil -> Forall (fun v => (v < 2 ^ N.of_nat w)%N) vals ->
+  IeeeCol.ieee_col_dec w (length vals) (IeeeCol.ieee_col_enc w vals ++ tl) = Some (vals, tl).
+Proof. exact IeeeColProof.ieee_col_roundtrip. Qed.
+Print Assumptions C19_compressed_column_roundtrip.
+Example C19_signed_zeros_are_distinct :
+  IeeeCol.ieee_col_dec 32 2 (IeeeCol.ieee_col_enc 32 [0; 0x80000000]%N) = Some ([0; 0x80000000]%N, nil).
+Proof. vm_compute. reflexivity. Qed.
